@@ -427,7 +427,7 @@ func c13Message(c *fw.Case, n *chain.Node, dk *distEnv, mc gen.MinterConfig, aut
 			if idx < 1 {
 				return nil, ""
 			}
-			shift := now.Add(time.Duration(1+r.Intn(2000))*time.Minute).Sub(*cur.Minters[idx-1].EndTime)
+			shift := now.Add(time.Duration(1+r.Intn(2000)) * time.Minute).Sub(*cur.Minters[idx-1].EndTime)
 			for i, m := range cur.Minters {
 				cp := *m
 				if i >= idx-1 && cp.EndTime != nil {
